@@ -9,7 +9,7 @@ python3 tools/t6_twiddles.py
 [ -f tools/t5_surface.py ] && python3 tools/t5_surface.py || true
 (cd harness && cargo build --release --offline)
 python3 tools/t2_bflyops.py
-(cd lean && lake build rfvmodel && lake build RFV)
+(cd lean && lake build rfvmodel && lake build RFV RFV.AllProps)
 (cd harness && cargo build --release --offline && cargo build --release --offline --no-default-features --target-dir /verif/.build/cargo-none)
 (cd witness && cargo build --offline)
 echo "setup ok"
